@@ -100,26 +100,7 @@ def decoding_agrees(ctx):
         g = gen_flow.Gen(ctx.rng, proto)
         name = codec.P[proto]["name"]
         ids = sorted(g.model)
-        hist = []
-        for variant in ("own", "reduced"):
-            for k in range(0, len(ids), 6):
-                fields = []
-                for e in ids[k:k + 6]:
-                    t = g.model[e]
-                    if t in ("string", "octetArray"):
-                        ln = gen_flow.VARLEN if (proto == "ipfix" and variant == "own") else 5
-                    elif t in gen_flow.SIZES:
-                        ln = gen_flow.SIZES[t] if variant == "own" else max(1, gen_flow.SIZES[t] - 1)
-                    else:
-                        ln = 4
-                    fields.append({"e": e, "l": ln, "pen": 0, "t": t})
-                tpl = {"id": 256 + len(hist) // 2, "scope": [], "fields": fields}
-                body = g.enc_tpl_rec(tpl)
-                ts = g.enc_set(2 if proto == "ipfix" else 0, body, 0 if proto == "ipfix" else (-len(body)) % 4)
-                recs = g.enc_record(tpl) + g.enc_record(tpl)
-                ds = g.enc_set(tpl["id"], recs, 0 if proto == "ipfix" else ((-len(recs)) % 4 if (-len(recs)) % 4 < g.minlen(tpl) else 0))
-                hist.append(g.header(1, len(ts)) + ts)
-                hist.append(g.header(2, len(ds)) + ds)
+        hist = g.per_element("own") + g.per_element("reduced")
         exp = [10, 1, 2, 3]
         jobs = [{"msgs": [{"exp": exp, "buf": m} for m in hist[i:i + 2]], "want_json": True} for i in range(0, len(hist), 2)]
         for _ in range(300 if thorough else 60):
